@@ -40,8 +40,17 @@ def r1(ctx):
     ref = None
     for fn in fns + [find]:
         ctx.touch(fn)
-        pl = layout.placements(fn, 'key')
-        fold = layout.fold_schedule(fn, 'exp')
+        acc = layout.accumulator(fn) if fn is not find else None
+        if fn is find:
+            # the re-keying accumulator in find: the local that is XOR-ed with shifted telegram bytes
+            for nid, d, rhs, op, lhs in fn.assignments():
+                if op == '^=' and d and rhs is not None and '<<' in fn.key(rhs):
+                    acc = d.split(':')[-1]
+        if acc is None:
+            raise AnalysisBroken('C08.R1: key accumulator not found in %s' % fn.sig)
+        pl = layout.placements(fn, acc)
+        cnt = layout.fold_counter(fn, acc) or 'exp'
+        fold = layout.fold_schedule(fn, cnt)
         if not pl:
             raise AnalysisBroken('C08.R1: no key placements in %s' % fn.sig)
         problems = []
@@ -78,7 +87,7 @@ def r1(ctx):
             f0 = folds[0]
             if f0['op'] != '^=':
                 problems.append('ID bytes folded with %s instead of ^=' % f0['op'])
-            if f0['shift'] != '(#8 * exp--)':
+            if f0['shift'] != '(#8 * %s--)' % cnt:
                 problems.append('fold shift %s' % f0['shift'])
             has_hdr = 40 in fixed and 32 in fixed
             want_init = 3 if (has_hdr or is_find) else 5
@@ -87,7 +96,7 @@ def r1(ctx):
             if fold['steps'] != [-1]:
                 problems.append('fold step %s' % fold['steps'])
             rs = fold['resets']
-            if len(rs) != 1 or rs[0][0] != 3 or ('(exp < #0)', True) not in rs[0][1]:
+            if len(rs) != 1 or rs[0][0] != 3 or ('(%s < #0)' % cnt, True) not in rs[0][1]:
                 problems.append('fold wrap %s (expected: exp < 0 -> 3)' % rs)
             if f0['width'] != 8:
                 problems.append('folded source is %s bits wide' % f0['width'])
@@ -150,7 +159,7 @@ def r2(ctx, find):
         if (v.get('callee') or '').endswith('::getFirstAvailableFromIterator'):
             n += 1
             a = find.key(v['args'][1])
-            ctx.ob('C08.R2', find, c, a == '&master', 'lookup passes the telegram', 'second argument %s' % a)
+            ctx.ob('C08.R2', find, c, a == '&' + find.P(0), 'lookup passes the telegram', 'second argument %s' % a)
     gfa = [f for f in fb.fns('ebusd::getFirstAvailable') if 'MasterSymbolString' in f.sig]
     if len(gfa) != 1:
         raise AnalysisBroken('C08.R2: getFirstAvailable(messages, master, ...) not found')
@@ -159,7 +168,9 @@ def r2(ctx, find):
     rets = [r for r in g.all('ReturnStmt') if g.nodes[r].get('val') is not None and g.key(g.nodes[r]['val']) != '#0']
     for r in rets:
         # a message is returned only if (no telegram given) or checkId succeeded
-        ok = g.needs_one_of(r, [('sameIdExtAs', False), ('message.checkId(*sameIdExtAs,#0)', True)])
+        pn = g.P(1)
+        mv = g.key(g.nodes[r]['val'])
+        ok = g.needs_one_of(r, [(pn, False), ('%s.checkId(*%s,#0)' % (mv, pn), True)])
         n += 1
         ctx.ob('C08.R2', g, r, ok, 'getFirstAvailable returns only ID-checked candidates', 'checkId dominates the return: %s' % ok)
     # Message::checkId: loop over all id bytes
@@ -169,7 +180,8 @@ def r2(ctx, find):
             raise AnalysisBroken('C08.R2: %s(master, index) not found' % name)
         f = fns[0]
         ctx.touch(f)
-        cmps = [x for x in f.all('BinaryOperator') if f.nodes[x].get('op') in ('!=', '==') and 'master.dataAt(' in f.key(x)]
+        mname = f.P(0)
+        cmps = [x for x in f.all('BinaryOperator') if f.nodes[x].get('op') in ('!=', '==') and ('%s.dataAt(' % mname) in f.key(x)]
         loops = f.all('ForStmt')
         problems = []
         if not cmps:
@@ -181,19 +193,22 @@ def r2(ctx, find):
             if c is not None:
                 bounds.append(f.key(c))
         if name.endswith('Message::checkId') and 'Chained' not in name:
-            if not any(b == '(pos < idLen)' for b in bounds):
-                problems.append('loop bound %s (expected pos < idLen)' % bounds)
-            init = [f.key(rhs) for nid, d, rhs, op, lhs in f.assignments() if d and d.endswith(':idLen') and rhs is not None]
-            if init != ['this.getIdLength()']:
-                problems.append('idLen = %s' % init)
+            full = f.local_where(lambda k, r: k == 'this.getIdLength()')
+            if not full or not any(b.endswith(' < %s)' % full[0]) for b in bounds):
+                problems.append('loop bound %s (expected: position < local holding getIdLength())' % bounds)
         else:
-            if '(pos < chainPrefixLength)' not in bounds or '(pos < idLen)' not in bounds:
-                problems.append('loops %s (expected prefix loop and suffix loop up to idLen)' % bounds)
+            cal = lambda r: f.nodes.get(f.strip(r), {}).get('callee')
+            full = f.local_where(lambda k, r: cal(r) == 'ebusd::ChainedMessage::getIdLength')
+            pre = f.local_where(lambda k, r: cal(r) == 'ebusd::Message::getIdLength')
+            if not full or not pre or not any(b.endswith(' < %s)' % pre[0]) for b in bounds) or \
+                    not any(b.endswith(' < %s)' % full[0]) for b in bounds):
+                problems.append('loops %s (expected prefix loop and suffix loop up to the full ID length)' % bounds)
             # inside the suffix loop a mismatch must lead to rejection of this part: after the mismatch branch the
             # "found" flag is false when the loop is left
             flag = None
             for nid, d, rhs, op, lhs in f.assignments():
-                if op == 'init' and rhs is not None and f.val(rhs) == 0 and d and d.endswith(':found'):
+                if op == 'init' and rhs is not None and f.val(rhs) == 0 and d and f.nodes.get(f.strip(rhs), {}).get('k') == 'CXXBoolLiteralExpr' and \
+                        any(d2 == d and r2 is not None and f.val(r2) == 1 for n2, d2, r2, o2, l2 in f.assignments()):
                     flag = d
             mism = [x for x in cmps if f.nodes[x].get('op') == '!=' and 'this.m_id[' not in f.key(x)]
             if flag and mism:
@@ -215,7 +230,7 @@ def r2(ctx, find):
                             k, p = facts.atom_key(f, a)
                             if k == f.key(mism[0]).replace(' != ', ' == ') and not p and a[0] == 'cmp':
                                 mm = True
-                            if k == 'found' and len(dnf) == 1:
+                            if k == flag.split(':')[-1] and len(dnf) == 1:
                                 if p and mm and st == 'T':
                                     bad.append(1)
                                 if (p and st == 'F') or (not p and st == 'T'):
@@ -243,8 +258,12 @@ def r3(ctx):
         raise AnalysisBroken('C08.R3: MessageMap::add(bool, Message*, bool) not found')
     fn = fn[0]
     ctx.touch(fn)
+    refs = set()
+    for nid, d, rhs, op, lhs in fn.assignments():
+        if op == 'init' and d and rhs is not None and fn.key(rhs).startswith('this.m_messagesByKey['):
+            refs.add(d.split(':')[-1])
     stores = [c for c in fn.all('CXXMemberCallExpr') if (fn.nodes[c].get('callee') or '').split('::')[-1] in ('push_back', 'insert') and
-              ('this.m_messagesByKey' in fn.key(fn.nodes[c].get('obj', -1)) or fn.key(fn.nodes[c].get('obj', -1)) == 'keyMessages')]
+              ('this.m_messagesByKey' in fn.key(fn.nodes[c].get('obj', -1)) or fn.key(fn.nodes[c].get('obj', -1)) in refs)]
     if not stores:
         raise AnalysisBroken('C08.R3: insertion into m_messagesByKey not found')
     mx = set(nid for nid, d, rhs, op, lhs in fn.assignments() if d == 'this.m_maxIdLength')
@@ -294,21 +313,37 @@ def r4(ctx, find, mv):
     # loop variable
     loops = fn.all('ForStmt')
     ok_loop = False
+    maxv = None
+    for c in fn.all('CallExpr', 'CXXMemberCallExpr'):
+        if (fn.nodes[c].get('callee') or '').endswith('Message::createKey') and len(fn.nodes[c].get('args', [])) > 1:
+            maxv = fn.key(fn.nodes[c]['args'][1])
+    lenv = None
     for l in loops:
         v = fn.nodes[l]
         inc = fn.key(v['inc']) if 'inc' in v else ''
-        if inc in ('idLength--', '--idLength'):
-            init = fn.nodes.get(v.get('init'), {})
-            iv = [fn.key(dd['init']) for dd in init.get('decls', []) if 'init' in dd]
-            ok_loop = iv == ['maxIdLength']
+        init = fn.nodes.get(v.get('init'), {})
+        iv = [(dd.get('name'), fn.key(dd['init'])) for dd in init.get('decls', []) if 'init' in dd]
+        if len(iv) == 1 and iv[0][1] == maxv and maxv is not None:
+            lenv = iv[0][0]
+            ok_loop = inc in (lenv + '--', '--' + lenv)
+    if lenv is None:
+        raise AnalysisBroken('C08.R4: probe loop over the ID length not found in MessageMap::find')
+    flagP, flagR, flagW = fn.P(4), fn.P(2), fn.P(3)
     ctx.ob('C08.R4', fn, fn.body, ok_loop, 'probe loop direction', 'starts at maxIdLength and decreases by one: %s' % ok_loop)
     brk = [b for b in fn.all('BreakStmt')]
-    ok_exit = any(('(idLength == #0)', True) in set((a[0], a[1]) for a in fn.atoms(b)) for b in brk)
+    ok_exit = any(('(%s == #0)' % lenv, True) in set((a[0], a[1]) for a in fn.atoms(b)) for b in brk)
     ctx.ob('C08.R4', fn, fn.body, ok_exit, 'probe loop exit', 'leaves only after length 0 was probed: %s' % ok_exit)
     probes = [c for c in fn.all('CXXMemberCallExpr') if (fn.nodes[c].get('callee') or '').endswith('::getFirstAvailableFromIterator')]
     src_mask = mv.get('ID_SOURCE_MASK', 0x1f << 56)
+    keyv = None
+    for c in probes:
+        for x in fn.walk(fn.nodes[c]['args'][0]):
+            if fn.nodes[x]['k'] == 'DeclRefExpr' and fn.nodes[x].get('rk') == 'local' and fn.nodes[x].get('t', '').startswith('uint64'):
+                keyv = fn.nodes[x].get('name')
+    if keyv is None:
+        raise AnalysisBroken('C08.R4: key variable of the probes not found')
     clears = set(nid for nid, v in fn.nodes.items() if v['k'] == 'CompoundAssignOperator' and v.get('op') == '&=' and
-                 fn.key(v['lhs']) == 'key' and fn.val(v['rhs']) is not None and (fn.val(v['rhs']) & U64) == (~src_mask & U64))
+                 fn.key(v['lhs']) == keyv and fn.val(v['rhs']) is not None and (fn.val(v['rhs']) & U64) == (~src_mask & U64))
     if not clears:
         ctx.ob('C08.R4', fn, fn.body, False, 'source field cleared', 'no key &= ~ID_SOURCE_MASK found')
     for c in probes:
@@ -319,7 +354,7 @@ def r4(ctx, find, mv):
         if markers & {0x1e, 0x1f}:
             # active probe: the source field must have been cleared on every path where it could be set
             kind = 'read' if any(v == mv.get('ID_SOURCE_ACTIVE_READ') for v in consts) else 'write'
-            flag = 'withRead' if kind == 'read' else 'withWrite'
+            flag = flagR if kind == 'read' else flagW
             guarded = (flag, True) in atoms
             # every path from the loop body start to this probe either passes a clear or the (key & SOURCE_MASK) == 0 edge
             zero_edges = [e for e in fn.edges() if False]
@@ -327,7 +362,7 @@ def r4(ctx, find, mv):
             for b in fn.blocks.values():
                 if b.cond is not None and len(b.succs) == 2:
                     ck = fn.key(fn.effective_cond(b.id))
-                    if ck in ('((key & #%d) == #0)' % src_mask, '((key & #%d) != #0)' % src_mask):
+                    if ck in ('((%s & #%d) == #0)' % (keyv, src_mask), '((%s & #%d) != #0)' % (keyv, src_mask)):
                         j = 0 if '== #0' in ck else 1
                         cut.append((b.id, j))
             tgt = fn.pos(c)
@@ -336,7 +371,7 @@ def r4(ctx, find, mv):
             ctx.ob('C08.R4', fn, c, guarded and not reach, 'active %s probe' % kind,
                    'guarded by %s: %s; source number cleared (or known zero) on every path: %s' % (flag, guarded, not reach))
         else:
-            guarded = ('withPassive', True) in atoms
+            guarded = (flagP, True) in atoms
             ctx.ob('C08.R4', fn, c, guarded, 'passive probe', 'guarded by withPassive: %s' % guarded)
 
 
